@@ -22,6 +22,7 @@ PROFILE = {
     "multi_call": (1, 2),
     "classifier_time": 0.25,
     "record_failure_time": 0.3,
+    "attempt_timeout": 0.1,
 }
 
 
